@@ -119,7 +119,13 @@ fn layout_family() -> Vec<Case> {
                 for blanks in [0usize, 1, 3] {
                     for members in [1usize, 3, 12] {
                         for last in [false, true] {
-                            let mut text = String::from("Layout-Mod DEFINITIONS AUTOMATIC TAGS ::= BEGIN\n");
+                            // every fourth layout stands behind a well-formed module whose END carries a comment, glued or not
+                            let mut text = match k % 8 {
+                                1 => String::from("Lead-Mod DEFINITIONS ::= BEGIN\nLead ::= NULL\nEND-- end of Lead-Mod\n"),
+                                5 => String::from("Lead-Mod DEFINITIONS ::= BEGIN\nLead ::= NULL\nEND -- end of Lead-Mod --\n\n"),
+                                _ => String::new(),
+                            };
+                            text.push_str("Layout-Mod DEFINITIONS AUTOMATIC TAGS ::= BEGIN\n");
                             text.push_str(&format!("{indent}First ::= INTEGER\n"));
                             for b in 0..blanks {
                                 text.push_str(if b % 2 == 0 { "\n" } else { "   \n" });
